@@ -15,7 +15,8 @@ pub enum Case {
     Fs { game: u8, language: u8, path: String, payload: Payload, layers: u8 },
 }
 
-pub const PALETTE: [&str; 9] = ["m", "GameData.bin.lz", "sub dir", "\u{30C6}\u{30AD}\u{30B9}\u{30C8}", "@mods", "a.b-c_d", "@E", "e_common.m", "s_"];
+/// plain components, among them components spelled like a marker of each marker family (FE13 "E", FE14 "@E", FE15 "@NOE_SP", FE9/10 "s_", "e_")
+pub const PALETTE: [&str; 11] = ["m", "GameData.bin.lz", "sub dir", "\u{30C6}\u{30AD}\u{30B9}\u{30C8}", "@mods", "a.b-c_d", "@E", "e_common.m", "s_", "@NOE_SP", "E"];
 
 fn localizer_of(i: u8) -> (PathLocalizer, Option<mila::Game>) {
     match i % 6 {
@@ -373,6 +374,32 @@ impl Prop for C14 {
                                 }
                                 None => return,
                             }
+                        }
+                        // the same directories seen through every OTHER language of the game: where that language's location differs
+                        // and nothing is stored there, no localized operation may find the file written for `lang`
+                        let snap = snapshot(&top);
+                        for other in LANGS {
+                            if format!("{other:?}") == format!("{lang:?}") {
+                                continue;
+                            }
+                            let want2 = match expected_localized(g, other, path) {
+                                Some(w2) => w2,
+                                None => continue,
+                            };
+                            if want2 == *want || lookup(&snap, want2.trim_end_matches('/')).is_some() {
+                                continue;
+                            }
+                            let fs2 = match cx.call(|| LayeredFilesystem::new(sb.layers.clone(), other, g)) {
+                                Some(Ok(f)) => f,
+                                _ => continue,
+                            };
+                            let seen = (fs2.read(path, true).is_ok(), fs2.exists(path, true).ok(), fs2.file_exists(path, true).ok(), fs2.resolve(path, true).is_some());
+                            if !cx.check(seen == (false, Some(false), Some(false), false), "fs-other-language-addresses-another-location", || {
+                                format!("{g:?}: {path:?} was written localized for {lang:?} (at {want:?}); for {other:?} (location {want2:?}, nothing stored there) (read ok, exists, file_exists, resolve is some) = {seen:?}")
+                            }) {
+                                return;
+                            }
+                            cx.label("fs:seen-through-another-language");
                         }
                         let has_marker = want != path;
                         if has_marker {
